@@ -15,7 +15,11 @@ SPEC = dict(
          "goroutines (Emit / EmitLazy / EmitFollowup / EmitFollowupLazy, parents = latest id, first id ever (stale after a reconnect) or "
          "InvalidID), buffer sizes 1-64, GOMAXPROCS 1-16, per-connection faults (dial refused, write error inside the node-information "
          "frame, write error at an arbitrary byte offset later, peer that stops reading = stalled writer, peer close), re-stalls, Close "
-         "after / during the emitters / while the writer is stalled; 900 scenarios in quick, 30000 in thorough. Observed: the ids "
+         "after / during the emitters / while the writer is stalled; in a quarter of the scenarios some lazy builders PANIC on the writer "
+         "goroutine (1-30 %) and the emitters keep emitting afterwards; padded payloads (1-2048 bytes); every 30th scenario is a "
+         "RECONNECT STORM (every connection dies after 1-4 frames, ReconnectMin = 1 ns, 3-8 emitters alternating Emit and a follow-up "
+         "of the id just returned without pausing, 800-1700 attempts each, ~100-300 connections per scenario) so that emit calls are "
+         "regularly in flight across a whole disconnect -> epoch bump -> reconnect; 900 scenarios in quick, 30000 in thorough. Observed: the ids "
          "returned to every emitter and the bytes each connection received, decoded with the package's own Decoder into "
          "node-info / event(tag) / follow-up(tag,parent seq) / dropped(n). The extracted oracle `accepts` (proved sound: "
          "C28_oracle_sound) is evaluated on every observed run; compared string = verdict, always expected `ok`. Also `blocked` when an "
@@ -91,7 +95,8 @@ MANIFEST = dict(
 def _race_run(a, lib):
     """Build the harness with -race and run a subset of the scenarios. Returns (violation_path_or_None, info)."""
     repo, build = lib.REPO, lib.BUILD
-    out = os.path.join(build, "h_verif_c28_race")
+    alt = "" if repo == "/repo" else "_" + hashlib.sha1(repo.encode()).hexdigest()[:8]
+    out = os.path.join(build, "h_verif_c28_race" + alt)
     ovj = os.path.join(build, "overlay_c28race_%s.json" % hashlib.sha1(repo.encode()).hexdigest()[:8])
     subprocess.run([sys.executable, os.path.join(lib.ROOT, "harness", "mkoverlay.py"), ovj],
                    env=dict(os.environ, VERIF_REPO=repo), check=False)
@@ -100,7 +105,7 @@ def _race_run(a, lib):
     if rc != 0:
         p = lib.write_replay("C28", "racebuild", [], ["property=C28 the -race build of the harness failed"] + o.splitlines()[-30:])
         return p, dict(built=False), " no-failing-input-found"
-    wd = os.path.join(build, "run_C28_race")
+    wd = os.path.join(build, "run_C28_race" + alt)
     os.makedirs(wd, exist_ok=True)
     cases = os.path.join(wd, "cases.txt")
     if a.replay:
